@@ -128,6 +128,10 @@ func (g *Gen) solveOne(ob *Obligation, dir string, header string, timeoutMS int,
 	}
 	os.WriteFile(files["z3-new"], []byte(solvers[0].pre+body), 0o644)
 	quick := 2500
+	if ob.Expect == "sat" {
+		// vacuity guards only fail on 'unsat', which (when it happens) is found quickly
+		quick = 1000
+	}
 	if quick > timeoutMS {
 		quick = timeoutMS
 	}
